@@ -146,7 +146,14 @@ func (mr *msgReader) putFlateReader() {
 
 func (mr *msgReader) close() {
 	mr.c.readMu.forceLock()
-	mr.putFlateReader()
+	if mr.flateReader != nil {
+		// A compressed message is still being read. When the connection is closed
+		// by a close frame received in the middle of it, its flate and bufio readers
+		// are still on the stack of that Read, so they must not be handed to the
+		// pools for another connection to pick up. Leave them to the GC.
+		mr.flateReader = nil
+		mr.flateBufio = nil
+	}
 	if mr.dict != nil {
 		mr.dict.close()
 		mr.dict = nil
@@ -409,7 +416,8 @@ func (mr *msgReader) Read(p []byte) (n int, err error) {
 	defer mr.c.readMu.unlock()
 
 	n, err = mr.limitReader.Read(p)
-	if mr.flate && mr.flateContextTakeover() {
+	if mr.flate && mr.flateContextTakeover() && mr.dict != nil {
+		// dict is nil once the connection has been closed from within this Read.
 		p = p[:n]
 		mr.dict.write(p)
 	}
